@@ -101,7 +101,7 @@ def switchOf (cfg : ECfg) (al : List (Str × Val)) (sw : Option (Nat × Tok)) (k
 def loopOf (key : Str) (names : List Tok) (local_ : Bool) (ws : Str) (k : RM Unit) : List Val → Nat → RM Unit
   | [], _ => pure ()
   | item :: rest, remaining => do
-    modEnv (fun e => { e with repeats := e.repeats.map (fun (k, r) => if k == key then (k, { r with consumed := r.consumed + 1 }) else (k, r)) })
+    modEnv (fun e => { e with repeats := e.repeats.map (fun (k, r) => if r.tag == key then (k, { r with consumed := r.consumed + 1 }) else (k, r)) })
     match names with
     | [nm] => do
       setVar nm.str item
@@ -141,9 +141,12 @@ def repeatOf (cfg : ECfg) (al : List (Str × Val)) (rp : Option (Nat × DefineSp
     let key : Str := match d.names with
       | [nm] => nm.str
       | _ => (d.names.map (fun nm => nm.str ++ [44])).flatten
-    modEnv (fun e => { e with repeats := (key, { length := items.length, consumed := 0 }) :: e.repeats.filter (·.1 != key) })
+    let s1 ← mGet
+    let tag : Str := key ++ [0] ++ natToStr (s1.loops + 1)
+    mModify (fun s => { s with loops := s.loops + 1 })
+    modEnv (fun e => { e with repeats := (key, { length := items.length, consumed := 0, tag := tag }) :: e.repeats.filter (·.1 != key) })
     d.names.forM (fun nm => setVar nm.str .none)
-    loopOf key d.names local_ ws k items items.length
+    loopOf tag d.names local_ ws k items items.length
     if local_ then restore backups else pure ()
 
 /-- 2b. `tal:condition` -/
